@@ -168,8 +168,17 @@ def run(ctx):
     if i % 2 == 0:
       chunks_given = fits.encode_labels(rng, data)['chunks']     # chunk ids are names: gaps are legal
       ctx.hist('rca.chunk_ids', 'gapped')
+    if i % 3 != 2:
+      keep = chunks >= 0                       # every point belongs to a chunk (no -1 entry)
+      X, chunks, chunks_given = np.ascontiguousarray(X[keep]), chunks[keep], chunks_given[keep]
+      ctx.hist('rca.unchunked_points', 'none')
+    else:
+      ctx.hist('rca.unchunked_points', 'some')
     nc = [None] + list(range(1, d + 1))
     dim = nc[int(rng.integers(0, len(nc)))]
+    if i % 3 == 0 and d >= 2:
+      dim = int(rng.integers(1, d))            # reduced case
+    X_before = X.copy()
     ctx.count('rca_fits', 1)
     try:
       with warnings.catch_warnings():
@@ -180,6 +189,9 @@ def run(ctx):
                      observed=str(ex)[:200])
       continue
     L = np.asarray(e.components_)
+    if not np.array_equal(X, X_before):
+      ctx.fail_input('rca', 'RCA.fit modifies the training array', dict(X=X_before.tolist(), chunks=chunks_given.tolist(), n_components=dim))
+      X = X_before
     if L.dtype.kind != 'f':
       ctx.fail_input('rca', 'RCA(n_components<d): components_ is not a real array', dict(n_components=dim), observed=str(L.dtype))
       continue
